@@ -18,6 +18,7 @@
  * Events:  SET <ch> <v> <dur_ms> <sender>   supla_esp_channel_set_value() called directly
  *          SW <gpio> <hi>                    supla_esp_gpio_relay_switch() (what a button press ends in), hi 0|1|255
  *          TIME2 <ch> <ms>                   staircase time changed and configuration saved
+ *          CHCFG <ch> <func> <type> <size> <ms>   channel config from the server (supla_esp_channel_config_result)
  *          FLAGS                             channel_flags := flags announced at registration (what
  *                                            supla_esp_devconn_set_channels does)
  *          ADV <us> | CRASH                  + everything of devsim.h
@@ -72,6 +73,11 @@ static void c7_st(void) {
   fprintf(stdout, " :\n");
 }
 
+/* an aged device: boot >= 2^32 in the CFG line presets the wrap count of uptime.c at the first boot (boot >> 32 wraps of
+ * the 32-bit counter have been seen, the counter reads boot mod 2^32); a restart starts at 0 again */
+typedef struct { uint32 cycles; uint32 last_system_time; ETSTimer timer; } c7_uptime_t;
+extern c7_uptime_t usermain_uptime;
+static unsigned c7_age = 0;
 static long long c7_cfgints[512]; static int c7_ncfgints = 0, c7_cfgpos = 0;   /* c7_cfgpos: first int not consumed by the core */
 /* CFG boot boot2 sbt lateflags nrel (gpio ch flags chflags)* nt2 ms* nlate us* [driver-specific rest] : */
 static void c7_parse_cfg(const char *line) {
@@ -80,7 +86,7 @@ static void c7_parse_cfg(const char *line) {
   while (*p && *p != ':' && c7_ncfgints < 512) { while (*p == ' ') p++; if (!*p || *p == ':') break; c7_cfgints[c7_ncfgints++] = strtoll(p, (char **)&p, 0); }
   int i = 0;
 #define NEXT (i < c7_ncfgints ? c7_cfgints[i++] : 0)
-  v_boot = (unsigned)(c7_ncfgints ? NEXT : 1); c7_boot2 = (unsigned)(c7_ncfgints > 1 ? NEXT : 1); c7_sbt = (int)NEXT; c7_lateflags = NEXT != 0;
+  { long long b = c7_ncfgints ? NEXT : 1; v_boot = (unsigned)b; c7_age = (unsigned)((unsigned long long)b >> 32); } c7_boot2 = (unsigned)(c7_ncfgints > 1 ? NEXT : 1); c7_sbt = (int)NEXT; c7_lateflags = NEXT != 0;
   int nrel = (int)NEXT;
   for (int k = 0; k < nrel; k++) {
     long long g = NEXT, ch = NEXT, f = NEXT, cf = NEXT;
@@ -116,6 +122,7 @@ static void c7_boot(int first) {
   }
   v_on_flash = c7_flash_hook;
   supla_esp_uptime_init();
+  if (first) usermain_uptime.cycles = c7_age;
   supla_esp_cfg_init();
   supla_esp_countdown_timer_init();
   for (int i = 0; i < v_board.nrelay; i++) v_board.relay[i].channel_flags = c7_lateflags ? 0 : c7_chflags[i];
@@ -152,6 +159,13 @@ static int c7_event(char *l) {
   if (!strncmp(l, "TIME2 ", 6)) {
     int ch = 0; unsigned ms = 0; sscanf(l + 6, "%d %u", &ch, &ms);
     if (ch >= 0 && ch < CFG_TIME2_COUNT) { supla_esp_cfg.Time2[ch] = ms; supla_esp_cfg_save(&supla_esp_cfg); } return 1;
+  }
+  if (!strncmp(l, "CHCFG ", 6)) {   /* CHCFG <ch> <func> <cfgtype> <cfgsize> <TimeMS>: SET_CHANNEL_CONFIG / GET_CHANNEL_CONFIG_RESULT as dispatched */
+    long long ch = 0, fn = 0, ct = 0, cs = 0, ms = 0; sscanf(l + 6, "%lld %lld %lld %lld %lld", &ch, &fn, &ct, &cs, &ms);
+    static TSD_ChannelConfig cc; memset(&cc, 0, sizeof cc);
+    cc.ChannelNumber = (unsigned char)ch; cc.Func = (int)fn; cc.ConfigType = (unsigned char)ct; cc.ConfigSize = (unsigned short)cs;
+    TChannelConfig_StaircaseTimer st; memset(&st, 0, sizeof st); st.TimeMS = (int)ms; memcpy(cc.Config, &st, sizeof st);
+    supla_esp_channel_config_result(&cc); return 1;
   }
   if (!strncmp(l, "FLAGS", 5)) { c7_fill_flags(); return 1; }
   if (!strncmp(l, "CRASH", 5)) { c7_crash(); return 1; }
